@@ -18,7 +18,7 @@ from spec.seq import at_most_one
 PROPERTY = "C13"
 LEVEL = "proof"
 ASSUMPTIONS = [
-    "design shapes: Connect with 1-2 writers and 1-2 readers, payload / reverse payload widths as listed, and a.simultaneous(b) on two user methods; all inputs and register values universally quantified per design",
+    "design shapes: Connect with 1-2 writers and 1-2 readers, payload / reverse payload widths as listed; a.simultaneous(b) on two user methods; simultaneous() declared on two or three transactions, on a transaction and a method, on three methods, each with and without an unrelated Connect in the design; all inputs and register values universally quantified per design",
 ]
 TECHNIQUE = "contracts on the elaborated netlist of designs using Connect / simultaneous(); z3, all inputs"
 
@@ -30,6 +30,11 @@ def configs(tier):
             for w, rw in ((2, 0), (2, 2), (0, 1)):
                 out.append({"kind": "connect", "writers": nw, "readers": nr, "w": w, "rw": rw})
     out.append({"kind": "simultaneous_methods"})
+    # simultaneity declared on transactions only (no method of the design carries a simultaneous() relation), on a
+    # transaction and a method, and on three bodies at once; optionally with an unrelated Connect elsewhere in the design
+    for kind in ("tt", "tm", "mmm", "ttt"):
+        for extra in (False, True):
+            out.append({"kind": "simultaneous_bodies", "shape": kind, "unrelated_connect": extra})
     return out
 
 
@@ -115,8 +120,100 @@ class SimDesign(Elaboratable):
         return m
 
 
+class BodiesDesign(Elaboratable):
+    """n sides; side i is a transaction Ti (free ready) calling its own method Ci (free ready) and, for 'm' sides, a user
+    method Mi (free ready) through which the simultaneity is declared. Side i drives d_i := x_i in its body (comb) and
+    copies the next side's d into got_i, so that data handed over in the same cycle is observable in both directions."""
+
+    def __init__(self, shape, unrelated_connect):
+        self.shape, self.unrelated_connect = shape, unrelated_connect
+        self.ins, self.outs = [], []
+
+    def elaborate(self, platform):
+        m = TModule()
+        n = len(self.shape)
+        S = lambda name, w=1: Signal(w, name=name)
+        self.t_rdy = [S(f"t{i}_rdy") for i in range(n)]
+        self.c_rdy = [S(f"c{i}_rdy") for i in range(n)]
+        self.m_rdy = [S(f"m{i}_rdy") for i in range(n)]
+        self.x = [S(f"x{i}", 2) for i in range(n)]
+        self.d = [S(f"d{i}", 2) for i in range(n)]
+        self.got = [S(f"got{i}", 2) for i in range(n)]
+        self.ins += self.t_rdy + self.c_rdy + self.x + [r for r, k in zip(self.m_rdy, self.shape) if k == "m"]
+        self.outs += self.d + self.got
+        self.C = [Method(name=f"C{i}") for i in range(n)]
+        self.M = [Method(name=f"M{i}") if k == "m" else None for i, k in enumerate(self.shape)]
+        self.T = [Transaction(name=f"T{i}") for i in range(n)]
+        for i in range(n):
+            @def_method(m, self.C[i], ready=self.c_rdy[i])
+            def _():
+                pass
+
+        def side_effects(i):
+            m.d.comb += self.d[i].eq(self.x[i])
+            m.d.comb += self.got[i].eq(self.d[(i + 1) % n])
+
+        def define_m(i):
+            @def_method(m, self.M[i], ready=self.m_rdy[i])
+            def _():
+                side_effects(i)
+
+        for i, k in enumerate(self.shape):
+            if k == "m":
+                define_m(i)
+
+        for i, k in enumerate(self.shape):
+            with self.T[i].body(m, ready=self.t_rdy[i]):
+                self.C[i](m)
+                if k == "m":
+                    self.M[i](m)
+                else:
+                    side_effects(i)
+        ends = [self.M[i] if k == "m" else self.T[i] for i, k in enumerate(self.shape)]
+        ends[0].simultaneous(*ends[1:])
+        self.ends = ends
+        if self.unrelated_connect:
+            m.submodules.conn = conn = Connect([("d", 1)])
+            self.uw, self.ur = S("uw_rdy"), S("ur_rdy")
+            self.ins += [self.uw, self.ur]
+            with Transaction(name="UW").body(m, ready=self.uw):
+                conn.write(m, d=1)
+            with Transaction(name="UR").body(m, ready=self.ur):
+                conn.read(m)
+        return m
+
+
+def run_bodies(cfg, ctx):
+    from amaranth.hdl._ir import Fragment
+
+    dsg = BodiesDesign(cfg["shape"], cfg["unrelated_connect"])
+    top = TransactronContextElaboratable(dsg)
+    rec = Recorder(())
+    with rec:
+        frag = Fragment.get(top, None)
+    n = len(cfg["shape"])
+    hw = HW(frag, dsg.ins, dsg.outs + [e.run for e in dsg.ends] + [t.run for t in dsg.T])
+    hw.rec = rec
+    ctx.use(hw)
+    runs = [hw.b(e.run) for e in dsg.ends]
+    truns = [hw.b(t.run) for t in dsg.T]
+    enabled = z3.And(*[hw.b(s) for s in dsg.t_rdy + dsg.c_rdy + [r for r, k in zip(dsg.m_rdy, cfg["shape"]) if k == "m"]])
+    for i in range(1, n):
+        ctx.prove(f"{dsg.ends[0].name}|{dsg.ends[i].name}.simultaneous_bodies_run_in_the_same_cycles", runs[0] == runs[i], hw=hw)
+        ctx.prove(f"T0|T{i}.callers_run_in_the_same_cycles", truns[0] == truns[i], hw=hw)
+    ctx.prove("run_iff_all_sides_fully_enabled", runs[0] == enabled, hw=hw)
+    for i in range(n):
+        j = (i + 1) % n
+        ctx.prove(f"side{i}.receives_data_of_side{j}_in_the_same_cycle", z3.Implies(runs[i], hw.sig(dsg.got[i]) == hw.sig(dsg.x[j])), hw=hw)
+        ctx.prove(f"side{i}.effects_follow_run", hw.sig(dsg.d[i]) == z3.If(runs[i], hw.sig(dsg.x[i]), z3.BitVecVal(0, 2)), hw=hw)
+    ctx.cover("all_run", z3.And(*runs), hw=hw)
+
+
 def run(cfg, ctx):
     from amaranth.hdl._ir import Fragment
+
+    if cfg["kind"] == "simultaneous_bodies":
+        return run_bodies(cfg, ctx)
 
     if cfg["kind"] == "connect":
         dsg = ConnectDesign(cfg)
